@@ -17,7 +17,7 @@ package transport
 //@   requires t != nil
 //@   modifies nothing
 // the pool hands out live connections of this transport (their monitor invariant holds between critical sections)
-//@   ensures err == nil ==> c != nil && pcInv(c) && c.t != nil && c.c != nil && c.t.logger != nil && c.ctx != nil
+//@   ensures err == nil ==> c != nil && pcInv(c) && pcLive(c) && c.ctx != nil
 //@ func (t *PipelineTransport) releaseConn(c *pipelineConn)
 //@   trusted
 //@   modifies nothing
@@ -110,7 +110,7 @@ package transport
 // never both, never twice, never to another waiter. A read error ends the loop by tearing the connection down.
 //@ func (c *pipelineConn) readLoop()
 //@   props C05 C01 C20
-//@   requires c != nil && c.t != nil && c.c != nil && c.t.logger != nil
+//@   requires c != nil && c.t != nil && c.c != nil && c.t.logger != nil && pcLive(c)
 //@   noterm
 //@   ghost gR *dnsmsg.Msg = nil
 //@   ghost gCh chan<- *dnsmsg.Msg = nil
@@ -132,16 +132,29 @@ package transport
 //@   callsite ReleaseMsg: [C20:undelivered-reply-released-once] arg0 == gR && nDisp == 0
 //@   loop 1:
 //@     modifies *
-//@     invariant c != nil && c.t != nil && c.c != nil && c.t.logger != nil && (isTCP ==> br != nil) && nDisp == 1 && nClose == 0
+//@     invariant c != nil && pcLive(c) && (isTCP ==> br != nil) && nDisp == 1 && nClose == 0
 
+// closeWithErr: the first call marks the connection closed (inside one critical section), and then - outside the
+// lock - closes the socket exactly once; every later call does nothing.
+//@ spec func pcLive(c *pipelineConn) bool = c.c != nil && c.t != nil && c.t.logger != nil && c.cancelCause != nil
 //@ func (c *pipelineConn) closeWithErr(err error)
-//@   trusted
-//@   requires c != nil
+//@   props C18 C05
+//@   requires c != nil && pcLive(c)
+//@   ghost held bool = false
+//@   ghost nAcq int = 0
+//@   ghost nSock int = 0
+//@   oncall Lock: held = true
+//@   oncall Lock: nAcq = nAcq + 1
+//@   oncall Unlock: held = false
+//@   oncall Close?: nSock = nSock + 1
 //@   modifies c.closed
+//@   ensures [C18:closed-for-good] c.closed && !held && nAcq == 1
+//@   ensures [C18:socket-closed-once-by-the-first-close] nSock == (old(c.closed) ? 0 : 1)
+//@   callsite Close?: [C18:socket-closed-outside-the-lock] !held && arg0 == c.c
 
 //@ func (c *pipelineConn) deleteQueueC(qid uint16)
 //@   props C05
-//@   requires c != nil && pcInv(c)
+//@   requires c != nil && pcInv(c) && pcLive(c)
 //@   ghost nAcq int = 0
 //@   oncall Lock?: nAcq = nAcq + 1
 //@   oncall RLock?: nAcq = nAcq + 1
@@ -173,7 +186,7 @@ package transport
 // (it is shared by the retries of PipelineTransport.ExchangeContext).
 //@ func (c *pipelineConn) write(m []byte, qid uint16) (err error)
 //@   props C05 C20 C16
-//@   requires c != nil && c.t != nil && c.c != nil && c.t.logger != nil && 2 <= len(m) && len(m) <= 65535
+//@   requires c != nil && c.t != nil && c.c != nil && c.t.logger != nil && 2 <= len(m) && len(m) <= 65535 && pcLive(c)
 //@   ghost nWr int = 0
 //@   oncall Write: nWr = nWr + 1
 //@   modifies c.closed
@@ -187,7 +200,7 @@ package transport
 // returned message carries the caller's original ID again.
 //@ func (c *pipelineConn) exchange(ctx context.Context, m []byte) (r *dnsmsg.Msg, err error)
 //@   props C05
-//@   requires c != nil && pcInv(c) && c.t != nil && c.c != nil && c.t.logger != nil && 2 <= len(m) && len(m) <= 65535 && ctx != nil && c.ctx != nil
+//@   requires c != nil && pcInv(c) && c.t != nil && c.c != nil && c.t.logger != nil && 2 <= len(m) && len(m) <= 65535 && ctx != nil && c.ctx != nil && pcLive(c)
 //@   ghost gq uint16 = 0
 //@   ghost addErr error = nil
 //@   ghost nDel int = 0
@@ -428,7 +441,7 @@ package transport
 
 //@ func (c *pipelineConn) Close() (err error)
 //@   props C18
-//@   requires c != nil
+//@   requires c != nil && pcLive(c)
 //@   ghost nC int = 0
 //@   oncall closeWithErr: nC = nC + 1
 //@   modifies c.closed
